@@ -289,7 +289,8 @@ class BaseProject(object, metaclass=ABCMeta):
 
         self.simulation_mode = SimulationMode.FORWARD
 
-        self.absence_time_list = absence_time_list
+        # keep a copy: the argument may be the shared default list of this method
+        self.absence_time_list = list(absence_time_list)
 
         self.perform_auto_task_while_absence_time = perform_auto_task_while_absence_time
 
